@@ -3,6 +3,8 @@ C11 — recorded market-data histories are complete, aligned and faithful.
 Property theorems only.
 -/
 import Bourse.Model.Env
+import Bourse.Lemmas.EnvInv
+import Bourse.Props.C08
 
 namespace Bourse.Props.C11
 open Bourse
@@ -126,4 +128,169 @@ example :
     e2.records.map (·.bidVolAt) = [[[5, 5], [2, 2]]] ∧ e2.records.map (·.askVolAt) = [[[7, 6], [0, 0]]] ∧
     e2.records.map (·.bidOrdAt) = [[[1, 1], [1, 1]]] ∧ e2.tradeVols = [[0, 1]] := by decide
 
+/-! ### Whole histories: entry `j` is the live book at the end of step `j`
+
+The one-step statements above, lifted over ANY sequence of environment operations (submissions,
+queued cancellations / modifications, trading switches, steps, any generator): the recorded series
+of an asset are its starting series followed by exactly one entry per step, and the entry of step
+`j` is the value the live book published at the end of step `j`. -/
+
+/-- The level-2 data of every asset at the end of each step of a history, in step order. -/
+def stepSnaps : MEnv × Xoro → List MEnv.EOp → List (List Level2)
+  | _, [] => []
+  | s, op :: rest =>
+    (match op with
+     | .step => [(s.1.apply s.2 .step).1.1.market.level2 s.1.nLevels]
+     | _ => []) ++ stepSnaps (s.1.apply s.2 op).1 rest
+
+/-- Append the snapshots of asset `a` one after the other. -/
+def appendSnaps (a : Nat) (r : Records) (snaps : List (List Level2)) : Records :=
+  snaps.foldl (fun r snap => r.append (snap[a]?.getD default)) r
+
+/-- The environment has one record structure per book. -/
+def Shape (e : MEnv) : Prop := e.records.length = e.market.books.length
+
+theorem books_length_apply (e : MEnv) (g : Xoro) (op : MEnv.EOp) :
+    (e.apply g op).1.1.market.books.length = e.market.books.length := by
+  cases op with
+  | submit a sd vol tr p =>
+    simp only [MEnv.apply, MEnv.placeOrder, Market.createOrder, Market.stepOn]
+    split <;> (split <;> simp)
+  | qcancel a id => rfl
+  | qmodify a id p v => rfl
+  | step =>
+    simp only [MEnv.apply, MEnv.step]
+    cases hs : Xoro.shuffle e.queue g with
+    | none => rfl
+    | some r =>
+      obtain ⟨batch, g'⟩ := r
+      rw [C08.step_is_replay]
+      -- a market run never changes the number of books
+      have : ∀ (m : Market) (ops : List Market.MOp), (m.run ops).books.length = m.books.length := by
+        intro m ops
+        induction ops generalizing m with
+        | nil => rfl
+        | cons o rest ih =>
+          simp only [Market.run, List.foldl_cons] at ih ⊢
+          rw [ih, C14.n_assets_constant]
+      exact this _ _
+  | trading on => cases on <;> simp [MEnv.apply, MEnv.enableTrading, MEnv.disableTrading, Market.enableTrading, Market.disableTrading]
+
+theorem records_length_apply (e : MEnv) (g : Xoro) (op : MEnv.EOp) (h : Shape e) :
+    Shape (e.apply g op).1.1 := by
+  unfold Shape at *
+  rw [books_length_apply]
+  cases op with
+  | submit a sd vol tr p => simp only [MEnv.apply, MEnv.placeOrder]; split <;> exact h
+  | qcancel a id => exact h
+  | qmodify a id p v => exact h
+  | step =>
+    simp only [MEnv.apply, MEnv.step]
+    cases hs : Xoro.shuffle e.queue g with
+    | none => exact h
+    | some r =>
+      obtain ⟨batch, g'⟩ := r
+      have hb := books_length_apply e g .step
+      simp only [MEnv.apply, MEnv.step, hs] at hb
+      simp only [MEnv.stepWith, List.length_map, List.length_zip, Market.level2] at hb ⊢
+      omega
+  | trading on => cases on <;> exact h
+
+/-- One operation: the records of asset `a` grow by the snapshot of that step, or stay. -/
+theorem records_apply (e : MEnv) (g : Xoro) (op : MEnv.EOp) (h : Shape e) (a : Nat) (r : Records)
+    (hr : e.records[a]? = some r) (hfault : Xoro.shuffle e.queue g ≠ none) :
+    (e.apply g op).1.1.records[a]? = some (appendSnaps a r (stepSnaps (e, g) [op])) := by
+  cases op with
+  | submit a' sd vol tr p =>
+    simp only [stepSnaps, List.append_nil, appendSnaps, List.foldl_nil]
+    rw [(nonstep_records e g _ (by simp)).1]; exact hr
+  | qcancel a' id => exact hr
+  | qmodify a' id p v => exact hr
+  | trading on =>
+    simp only [stepSnaps, List.append_nil, appendSnaps, List.foldl_nil]
+    rw [(nonstep_records e g _ (by simp)).1]; exact hr
+  | step =>
+    simp only [stepSnaps, List.append_nil, appendSnaps, List.foldl_cons, List.foldl_nil]
+    cases hs : Xoro.shuffle e.queue g with
+    | none => exact absurd hs hfault
+    | some rr =>
+      obtain ⟨batch, g'⟩ := rr
+      simp only [MEnv.apply, MEnv.step, hs]
+      have hlt : a < e.records.length := (List.getElem?_eq_some_iff.mp hr).1
+      have hlen : ((e.stepWith batch).market.level2 e.nLevels).length = e.records.length := by
+        have hb := books_length_apply e g .step
+        simp only [MEnv.apply, MEnv.step, hs] at hb
+        simp only [Market.level2, List.length_map]
+        rw [hb]; exact h.symm
+      obtain ⟨l, hl⟩ : ∃ l, ((e.stepWith batch).market.level2 e.nLevels)[a]? = some l :=
+        ⟨_, List.getElem?_eq_getElem (by rw [hlen]; exact hlt)⟩
+      rw [(step_records e batch a r l hr hl).1, hl]
+      rfl
+
+/-- The generator's rejection loop never runs out of fuel along the history (it fails with
+probability below `2^-256` per draw; a failure is a model fault). -/
+def ShuffleOk : MEnv × Xoro → List MEnv.EOp → Prop
+  | _, [] => True
+  | s, op :: rest => Xoro.shuffle s.1.queue s.2 ≠ none ∧ ShuffleOk (s.1.apply s.2 op).1 rest
+
+theorem appendSnaps_append (a : Nat) (r : Records) (x y : List (List Level2)) :
+    appendSnaps a r (x ++ y) = appendSnaps a (appendSnaps a r x) y := by
+  simp [appendSnaps, List.foldl_append]
+
+theorem stepSnaps_cons (s : MEnv × Xoro) (op : MEnv.EOp) (rest : List MEnv.EOp) :
+    stepSnaps s (op :: rest) = stepSnaps s [op] ++ stepSnaps (s.1.apply s.2 op).1 rest := by
+  simp [stepSnaps]
+
+/-- **After any history, the records of every asset are its starting records followed by one
+snapshot per step, in step order** — the snapshot being the level-2 data of the live book at the end
+of that step. -/
+theorem records_are_step_snapshots (s : MEnv × Xoro) (ops : List MEnv.EOp) (h : Shape s.1) (hok : ShuffleOk s ops)
+    (a : Nat) (r : Records) (hr : s.1.records[a]? = some r) :
+    (MEnv.runOps s ops).1.records[a]? = some (appendSnaps a r (stepSnaps s ops)) := by
+  induction ops generalizing s r with
+  | nil => simpa [MEnv.runOps, stepSnaps, appendSnaps] using hr
+  | cons op rest ih =>
+    rw [stepSnaps_cons, appendSnaps_append]
+    simp only [MEnv.runOps]
+    have h1 := records_apply s.1 s.2 op h a r hr hok.1
+    exact ih (s.1.apply s.2 op).1 (records_length_apply s.1 s.2 op h) hok.2 _ h1
+
+/-- Reading the scalar series: the touch-price and side-volume series after the history are the
+starting series followed, step by step, by the live book's bid price / ask price / bid volume / ask
+volume at the end of each step — bid series from bid values, ask series from ask values, entry `j`
+from step `j`. -/
+theorem appendSnaps_series (a : Nat) (r : Records) (snaps : List (List Level2)) :
+    (appendSnaps a r snaps).bidPrices = r.bidPrices ++ snaps.map (fun sn => (sn[a]?.getD default).bidPrice) ∧
+    (appendSnaps a r snaps).askPrices = r.askPrices ++ snaps.map (fun sn => (sn[a]?.getD default).askPrice) ∧
+    (appendSnaps a r snaps).bidVols = r.bidVols ++ snaps.map (fun sn => (sn[a]?.getD default).bidVol) ∧
+    (appendSnaps a r snaps).askVols = r.askVols ++ snaps.map (fun sn => (sn[a]?.getD default).askVol) := by
+  induction snaps generalizing r with
+  | nil => simp [appendSnaps]
+  | cons sn rest ih =>
+    have := ih (r.append (sn[a]?.getD default))
+    simp only [appendSnaps, List.foldl_cons] at this ⊢
+    refine ⟨?_, ?_, ?_, ?_⟩
+    · rw [this.1]; simp [Records.append]
+    · rw [this.2.1]; simp [Records.append]
+    · rw [this.2.2.1]; simp [Records.append]
+    · rw [this.2.2.2]; simp [Records.append]
+
+/-- The number of snapshots is the number of steps. -/
+theorem stepSnaps_length (s : MEnv × Xoro) (ops : List MEnv.EOp) :
+    (stepSnaps s ops).length = (ops.filter (· == .step)).length := by
+  induction ops generalizing s with
+  | nil => rfl
+  | cons op rest ih =>
+    rw [stepSnaps_cons, List.length_append, ih]
+    cases op <;> simp [stepSnaps] <;> omega
+
+/-- Non-vacuity: the two-step history of the example above as environment operations. -/
+example :
+    let s0 := (MEnv.new 0 [1] 10 true 2, Xoro.seed 3)
+    let ops : List MEnv.EOp := [.submit 0 .bid 5 1 (some 10), .submit 0 .bid 2 1 (some 9), .submit 0 .ask 7 2 (some 12), .step,
+                                .submit 0 .bid 1 3 (some 12), .step]
+    ((MEnv.runOps s0 ops).1.records.map (·.bidVols)) = [[7, 7]] ∧ (stepSnaps s0 ops).length = 2 ∧
+    ((stepSnaps s0 ops).map fun sn => sn.map (·.askVol)) = [[7], [6]] := by decide
+
 end Bourse.Props.C11
+
